@@ -1,0 +1,94 @@
+//go:build verif
+
+// C09: contracts for State.Prune (govc, /verif). Only compiled with -tags verif.
+
+package state
+
+// ---- accessors used by Prune ---------------------------------------------------------------
+
+//@ func (*Change).ReadyTime
+//@   props C09
+//@   assigns nothing
+//@   ensures result == c.readyTime
+
+//@ func (*Change).SpawnTime
+//@   props C09
+//@   assigns nothing
+//@   ensures result == c.spawnTime
+
+//@ func (*Change).ID
+//@   props C09
+//@   assigns nothing
+//@   ensures result == c.id
+
+//@ func (*Task).SpawnTime
+//@   props C09
+//@   assigns nothing
+//@   ensures result == t.spawnTime
+
+//@ func (*Change).Tasks
+//@   props C09
+//@   ensures len(result) == len(c.taskIDs) && forall i int :: {result[i]} 0 <= i && i < len(c.taskIDs) ==> result[i] == c.state.tasks[c.taskIDs[i]]
+
+//@ define hasAttr(c *Change, a string) = c.data[a] != nil
+
+//@ func (*Change).Has
+//@   props C09
+//@   assigns nothing
+//@   ensures result == hasAttr(c, key)
+
+// ---- aborting a change without tasks changes nothing Prune looks at -------------------------
+
+//@ func (*Change).abortTasks
+//@   props C09
+//@   ensures old(len(tasks)) == 0 ==> (forall x *Change :: x.readyTime == old(x.readyTime) && x.spawnTime == old(x.spawnTime) && x.taskIDs == old(x.taskIDs) && x.id == old(x.id)) && (forall y *State :: y.changes == old(y.changes) && y.tasks == old(y.tasks))
+//@   loop 0: invariant old(len(tasks)) == 0 ==> i == 0 && len(tasks) == 0 && len(lanes) == 0 && (forall x *Change :: x.readyTime == old(x.readyTime) && x.spawnTime == old(x.spawnTime) && x.taskIDs == old(x.taskIDs) && x.id == old(x.id)) && (forall y *State :: y.changes == old(y.changes) && y.tasks == old(y.tasks))
+
+//@ func (*Change).Abort
+//@   props C09
+//@   ensures old(len(c.taskIDs)) == 0 ==> (forall x *Change :: x.readyTime == old(x.readyTime) && x.spawnTime == old(x.spawnTime) && x.taskIDs == old(x.taskIDs) && x.id == old(x.id)) && (forall y *State :: y.changes == old(y.changes) && y.tasks == old(y.tasks))
+
+// the predicates registered with RegisterPendingChangeByAttr only inspect the change (assumption T5)
+//@ func dyncall:(*State).Prune#0
+//@   trusted
+//@   assigns nothing
+
+// ---- expiry of warnings and notices ------------------------------------------------------------
+
+// an entry is expired at `now` when its last occurrence plus its expiry period lies before `now`
+//@ define expiredAt(last time.Time, after time.Duration, now time.Time) = last.Add(after).Before(now)
+
+//@ func (*Warning).ExpiredBefore
+//@   props C09
+//@   assigns nothing
+//@   ensures result == expiredAt(w.lastAdded, w.expireAfter, now)
+
+//@ func (*Notice).expired
+//@   props C09
+//@   assigns nothing
+//@   ensures result == expiredAt(n.lastOccurred, n.expireAfter, now)
+
+// a finished change may go: ready for longer than the retention period, or too many ready changes
+//@ define mayDrop(ready time.Time, limit time.Time, count int, max int) = !ready.IsZero() && (ready.Before(limit) || count > max)
+
+// the age of an unfinished change counts from snapd start at the earliest
+//@ define clamped(eff time.Time, spawn time.Time, start time.Time) = (spawn.Before(start) && eff == start) || (!spawn.Before(start) && eff == spawn)
+
+//@ func (*State).Prune
+//@   props C09
+//@   guard mapdelete State.changes: [key] m == s.changes && key == chg.id
+//@   guard mapdelete State.changes: [when] (readyTime.IsZero() && chg.readyTime.IsZero() && len(chg.taskIDs) == 0 && spawnTime.Before(now.Add(-pruneWait)) && clamped(spawnTime, chg.spawnTime, startOfOperation)) || (chg.readyTime == readyTime && mayDrop(readyTime, now.Add(-pruneWait), readyChangesCount, maxReadyChanges))
+//@   guard mapdelete State.changes: [all-tasks] readyTime.IsZero() || forall j int :: {ranged5[j]} 0 <= j && j < len(ranged5) ==> !has(s.tasks, ranged5[j].id)
+//@   guard call Abort: [empty] arg0 == chg && chg.readyTime.IsZero() && len(chg.taskIDs) == 0
+//@   guard call AbortUnreadyLanes: [when] arg0 == chg && chg.readyTime.IsZero() && spawnTime.Before(now.Add(-abortWait)) && clamped(spawnTime, chg.spawnTime, startOfOperation)
+//@   guard mapdelete State.warnings: m == s.warnings && has(m, key) && expiredAt(m[key].lastAdded, m[key].expireAfter, now)
+//@   guard mapdelete State.notices: m == s.notices && has(m, key) && expiredAt(m[key].lastOccurred, m[key].expireAfter, now)
+//@   guard call (*Task).ID: [task-of-dropped-change] chg.readyTime == readyTime && mayDrop(readyTime, now.Add(-pruneWait), readyChangesCount, maxReadyChanges) && 0 <= idx5 && idx5 < len(ranged5) && len(ranged5) == len(chg.taskIDs) && arg0 == ranged5[idx5] && (has(chg.state.tasks, chg.taskIDs[idx5]) ==> arg0 == chg.state.tasks[chg.taskIDs[idx5]])
+//@   guard mapdelete State.tasks: [which] m == s.tasks && (key == t.id || (has(m, key) && m[key] == t && t.state.changes[t.change] == nil && t.spawnTime.Before(now.Add(-pruneWait))))
+//@   loop 5: invariant -1 <= idx5 && idx5 < len(ranged5) && len(ranged5) == len(chg.taskIDs)
+//@   loop 5: invariant chg.readyTime == readyTime && mayDrop(readyTime, now.Add(-pruneWait), readyChangesCount, maxReadyChanges)
+//@   loop 5: invariant forall j int :: {ranged5[j]} idx5 < j && j < len(ranged5) && has(chg.state.tasks, chg.taskIDs[j]) ==> ranged5[j] == chg.state.tasks[chg.taskIDs[j]]
+//@   loop 5: invariant forall j int :: {ranged5[j]} 0 <= j && j <= idx5 ==> !has(s.tasks, ranged5[j].id)
+//@   loop 0: invariant -1 <= idx0 && idx0 < len(changes) && readyChangesCount == idx0 + 1
+//@   loop 0: invariant forall j int :: {changes[j]} len(changes) - readyChangesCount <= j && j < len(changes) ==> !changes[j].readyTime.IsZero()
+//@   loop 2: invariant forall k noticeKey :: {visited(k)} visited(k) && has(s.notices, k) ==> !expiredAt(s.notices[k].lastOccurred, s.notices[k].expireAfter, now)
